@@ -35,11 +35,14 @@ import (
 )
 
 type harness struct {
-	c      *core.Ctx
-	e      *env
-	traces []traceJ
-	byID   map[int]*ran
-	feat   map[string]int
+	protoObs     map[string]string
+	corruptProto string
+	c            *core.Ctx
+	e            *env
+	traces       []traceJ
+	byID         map[int]*ran
+	feat         map[string]int
+	altRuns      int
 }
 
 // traceJ is one record of traces.ndjson (see ParScanTrace.tla).
@@ -69,6 +72,7 @@ type witness struct {
 	Prog     []string   `json:"prog"`
 	N        int        `json:"n"`
 	Schedule []int      `json:"schedule,omitempty"`
+	FreshSel int        `json:"fresh_sel,omitempty"`
 	Procs    int        `json:"gomaxprocs,omitempty"`
 	Mode     string     `json:"mode"`
 	ByF      string     `json:"byf,omitempty"`
@@ -137,7 +141,7 @@ func run(c *core.Ctx) error {
 	if err != nil {
 		return err
 	}
-	h := &harness{c: c, e: e, byID: map[int]*ran{}, feat: map[string]int{}}
+	h := &harness{c: c, e: e, byID: map[int]*ran{}, feat: map[string]int{}, protoObs: map[string]string{}, corruptProto: os.Getenv("VERIF_C08_CORRUPT_PROTO")}
 	c.Trust("TLC 1.8; the verif hooks meta.Lister.Pull.enter/object and meta.Slicer.Pull.enter; the quiescence detector of the leg scheduler (runtime.Stack states); zson parser/formatter used to project results")
 	c.Assume("pool key k over {1,2,3,\"s\",null,missing}; <= 4 objects of <= 3 values in the TLC universe; 2..3 legs under forced schedules, 2..16 legs free-running; operator alphabet of specs/ParScan.tla")
 	c.Rule("case = (pool layout, direction, program, leg count, leg schedule) exported by TLC from a terminal state of ParScan.tla, replayed on a real pool with the legs' Lister/Slicer pulls forced into that schedule, plus free-running repeats at parallelism 2..16 and GOMAXPROCS 1/2/16; non-trivial = at least two legs received data objects, or the plan splits an aggregation / lifts a sort, head or tail into the legs")
@@ -151,6 +155,16 @@ func run(c *core.Ctx) error {
 	}
 	if c.Replay != "" {
 		return h.replay()
+	}
+
+	// ---- the pull protocol that joins the legs (specs/PullProto.tla, proto.go)
+	if os.Getenv("VERIF_C08_SKIP_PROTO") == "" {
+		if err := h.protoPart(rand.New(rand.NewSource(c.Seed + 808))); err != nil {
+			return err
+		}
+	}
+	if os.Getenv("VERIF_C08_ONLY_PROTO") != "" {
+		return nil
 	}
 
 	// ---- TLC: exhaustive exploration of the leg interleavings + case export
@@ -203,7 +217,57 @@ func run(c *core.Ctx) error {
 	if !c.Quick() {
 		budget, minCases = 6*time.Minute, 2000
 	}
-	order := rng.Perm(len(cases))
+	// replay order: round robin over the programs (each program gets the same share of the
+	// budget), random within a program
+	byProg := map[string][]int{}
+	var progKeys []string
+	for _, i := range rng.Perm(len(cases)) {
+		k := strings.Join(cases[i].Prog, "|")
+		if _, ok := byProg[k]; !ok {
+			progKeys = append(progKeys, k)
+		}
+		byProg[k] = append(byProg[k], i)
+	}
+	sort.Strings(progKeys)
+	// first the cases in which TLC found the key-ordered merge load-bearing for a streaming
+	// group-by (sens, at most 24), one per (layout, direction, program) before any repeats
+	var order []int
+	inOrder := map[int]bool{}
+	sensN := 0
+	for pass := 0; pass < 2 && len(order) < 24; pass++ {
+		seen := map[string]bool{}
+		for _, i := range rng.Perm(len(cases)) {
+			cs := &cases[i]
+			k := layoutKey(cs.Objs, cs.Desc) + strings.Join(cs.Prog, "|")
+			if !cs.Sens || inOrder[i] || (pass == 0 && seen[k]) || len(order) >= 24 {
+				continue
+			}
+			seen[k] = true
+			inOrder[i] = true
+			order = append(order, i)
+		}
+	}
+	for _, cs := range cases {
+		if cs.Sens {
+			sensN++
+		}
+	}
+	c.Set("cases_merge_load_bearing", sensN)
+	for r := 0; len(order) < len(cases); r++ {
+		more := false
+		for _, k := range progKeys {
+			if r < len(byProg[k]) {
+				more = true
+				if i := byProg[k][r]; !inOrder[i] {
+					inOrder[i] = true
+					order = append(order, i)
+				}
+			}
+		}
+		if !more {
+			break
+		}
+	}
 	t0 := time.Now()
 	done := 0
 	for _, i := range order {
@@ -339,9 +403,15 @@ func (h *harness) replayCase(cs *caseJ, id int) error {
 	}
 	// the property: parallelism N under the exported schedule
 	sched := schedOf(cs)
-	rN, ev, errN := e.gated(src, cs.N, rp.Slicer, sched)
-	w := witness{Loads: loads, Desc: cs.Desc, Prog: cs.Prog, N: cs.N, Schedule: sched, Query: src, Plan: zfmt.DAG(seq), Par1: r1, ParN: rN}
+	rN, ev, errN := e.gated(src, cs.N, rp.Slicer, sched, id)
+	w := witness{Loads: loads, Desc: cs.Desc, Prog: cs.Prog, N: cs.N, Schedule: sched, FreshSel: id, Query: src, Plan: zfmt.DAG(seq), Par1: r1, ParN: rN}
 	h.oracle(w, cs.Seq.Mode, cs.Seq.ByF, cs.Seq.Det, r1, rN, errN, tags)
+	if !samePlan(rp, sp) && errN == nil {
+		// The real plan is not the one the spec predicts, so the exported schedule (a
+		// schedule of the predicted plan's pulls) says little about this flowgraph: the
+		// harness enumerates the schedules of the real plan's pulls itself (bounded).
+		h.altSchedules(cs, src, rp, loads, zfmt.DAG(seq), r1, tags, id)
+	}
 
 	// the hook trace
 	tr := traceJ{ID: id, Lay: cs.Lay, Desc: cs.Desc, Prog: cs.Prog, N: cs.N}
@@ -434,6 +504,44 @@ func (h *harness) replayCase(cs *caseJ, id int) error {
 	return nil
 }
 
+// altSchedules runs a case whose real plan deviates from the predicted one under the
+// schedules of ITS pulls: every sequence of leg names of length objects + legs (each leg
+// pulls until it sees the end), at most 12 of them and at most 600 per run.
+func (h *harness) altSchedules(cs *caseJ, src string, rp planJ, loads [][]string, plan string, r1 []string, tags []string, id int) {
+	var all [][]int
+	L := len(cs.Objs) + cs.N
+	var rec func(pre []int, named int)
+	rec = func(pre []int, named int) {
+		if len(pre) == L {
+			all = append(all, append([]int(nil), pre...))
+			return
+		}
+		for l := 1; l <= cs.N && l <= named+1; l++ {
+			nn := named
+			if l > named {
+				nn = l
+			}
+			rec(append(pre, l), nn)
+		}
+	}
+	rec(nil, 0)
+	rng := rand.New(rand.NewSource(h.c.Seed*7919 + int64(id)))
+	rng.Shuffle(len(all), func(i, j int) { all[i], all[j] = all[j], all[i] })
+	if len(all) > 12 {
+		all = all[:12]
+	}
+	for _, sched := range all {
+		if h.altRuns >= 600 {
+			return
+		}
+		h.altRuns++
+		rN, _, errN := h.e.gated(src, cs.N, rp.Slicer, sched, id)
+		w := witness{Loads: loads, Desc: cs.Desc, Prog: cs.Prog, N: cs.N, Schedule: sched, FreshSel: id, Query: src, Plan: plan, Par1: r1, ParN: rN}
+		h.oracle(w, cs.Seq.Mode, cs.Seq.ByF, cs.Seq.Det, r1, rN, errN, tags)
+		h.c.Eval(fmt.Sprintf("alt|%s|%v|%s|%d|%v", layoutKey(cs.Objs, cs.Desc), cs.Desc, strings.Join(cs.Prog, "|"), cs.N, sched), true)
+	}
+}
+
 // freeRun repeats replayed cases without the gate at parallelism 2..16 under
 // GOMAXPROCS 1, 2 and 16 (in a child process, see child.go).
 func (h *harness) freeRun(cases []caseJ, idx []int, rng *rand.Rand) error {
@@ -452,6 +560,35 @@ func (h *harness) freeRun(cases []caseJ, idx []int, rng *rand.Rand) error {
 			key := fmt.Sprintf("free|%d|%s|%s|%d|%d", len(jobs), layoutKey(cs.Objs, cs.Desc), strings.Join(cs.Prog, "|"), par, procs)
 			jobs = append(jobs, freeJob{Key: key, Pool: layoutKey(cs.Objs, cs.Desc), Loads: loadsOf(cs.Objs), Desc: cs.Desc, Prog: cs.Prog, Par: par, Procs: procs})
 			meta[key] = cs
+		}
+	}
+	// cases whose legs carry a lifted sort or a streaming group-by over >= 3 objects get
+	// repeated runs at >= 3 legs: the heap layout of the fan-in merge and the arrival order
+	// at the combine depend on which leg picked up which object
+	hotSeen := map[string]bool{}
+	maxHot := 10
+	if !c.Quick() {
+		maxHot = 120
+	}
+	for _, i := range idx {
+		cs := &cases[i]
+		hot := false
+		for _, l := range cs.Plan.Legs {
+			if strings.HasPrefix(l, "S") || strings.HasPrefix(l, "AB") || strings.HasPrefix(l, "AK") {
+				hot = true
+			}
+		}
+		k := layoutKey(cs.Objs, cs.Desc) + strings.Join(cs.Prog, "|")
+		if !hot || len(cs.Objs) < 2 || hotSeen[k] || len(hotSeen) >= maxHot {
+			continue
+		}
+		hotSeen[k] = true
+		for rep := 0; rep < 4; rep++ {
+			for _, par := range []int{3, 8} {
+				key := fmt.Sprintf("free|%d|%s|%s|%d|%d", len(jobs), layoutKey(cs.Objs, cs.Desc), strings.Join(cs.Prog, "|"), par, 16)
+				jobs = append(jobs, freeJob{Key: key, Pool: layoutKey(cs.Objs, cs.Desc), Loads: loadsOf(cs.Objs), Desc: cs.Desc, Prog: cs.Prog, Par: par, Procs: 16})
+				meta[key] = cs
+			}
 		}
 	}
 	res, err := runFree(jobs)
